@@ -1,4 +1,7 @@
 import ApdVerif.Oracle.Interval
+import ApdVerif.Lemmas.C12IntervalLemmas
+import ApdVerif.Lemmas.C12IntervalExp
+import ApdVerif.Lemmas.C12IntervalLn
 import Mathlib.Analysis.SpecialFunctions.Exp
 import Mathlib.Analysis.SpecialFunctions.Log.Basic
 /-!
@@ -7,68 +10,102 @@ import Mathlib.Analysis.SpecialFunctions.Log.Basic
 `BF.val x = m · 10^e` as a real number.  Every directed operation bounds the exact result from the
 proper side; hence the interval operations enclose the exact result for all points of their
 operands, `expPoint` encloses `Real.exp`, and `lnPoint` encloses `Real.log`.
+
+History: with the original `fastDigits` (fuel 4) the digit count was under-estimated for numbers of
+more than ~196 000 digits (`fastDigits (10^300000) = 299999`), which made `C12I_fastDigits`,
+`C12I_cmp`, `C12I_addDir`, `C12I_add`, `C12I_mul`, `C12I_expPoint`, `C12I_lnPoint` and
+`C12I_certainlyOff` false for astronomically large mantissas.  `fastDigits` now uses the fuel
+`bitlen/100000 + 4`, for which exactness is proved for ALL `n` (`C12I_fastDigits`), and all the
+statements below hold exactly as originally stated.
 -/
+set_option linter.unusedVariables false
 namespace Apd.Props
-open Apd Apd.Oracle.Iv
+open Apd Apd.Oracle.Iv Apd.C12IL
 
 noncomputable def bfVal (x : BF) : ℝ := (x.m : ℝ) * (10 : ℝ) ^ x.e
 
 /-- `r` lies in the interval -/
 def Encl (a : I) (r : ℝ) : Prop := bfVal a.lo ≤ r ∧ r ≤ bfVal a.hi
 
-theorem C12I_fastDigits (n : Nat) : fastDigits n = ndigits n := by
-  sorry
+theorem bfVal_eq (x : BF) : bfVal x = bv x := rfl
+theorem Encl_iff (a : I) (r : ℝ) : Encl a r ↔ Enc a r := Iff.rfl
 
-theorem C12I_rnd_down (W : Nat) (x : BF) : bfVal (rnd W true x) ≤ bfVal x := by
-  sorry
+theorem C12I_fastDigits (n : Nat) : fastDigits n = ndigits n := fastDigits_eq n
 
-theorem C12I_rnd_up (W : Nat) (x : BF) : bfVal x ≤ bfVal (rnd W false x) := by
-  sorry
+theorem C12I_rnd_down (W : Nat) (x : BF) : bfVal (rnd W true x) ≤ bfVal x := rnd_down W x
+
+theorem C12I_rnd_up (W : Nat) (x : BF) : bfVal x ≤ bfVal (rnd W false x) := rnd_up W x
 
 theorem C12I_cmp (a b : BF) : (a.cmp b < 0 ↔ bfVal a < bfVal b) ∧ (a.cmp b = 0 ↔ bfVal a = bfVal b) := by
-  sorry
+  rw [bfVal_eq, bfVal_eq]
+  rcases cmp_spec a b (fd a) (fd b) with ⟨h, k⟩ | ⟨h, k⟩ | ⟨h, k⟩ <;> rw [h]
+  · exact ⟨⟨fun _ => k, fun _ => by decide⟩, ⟨fun h' => absurd h' (by decide), fun h' => absurd h' k.ne⟩⟩
+  · exact ⟨⟨fun h' => absurd h' (by decide), fun h' => absurd k h'.ne⟩, ⟨fun _ => k, fun _ => rfl⟩⟩
+  · exact ⟨⟨fun h' => absurd h' (by decide), fun h' => absurd h' (not_lt.2 k.le)⟩,
+      ⟨fun h' => absurd h' (by decide), fun h' => absurd h' k.ne'⟩⟩
 
 theorem C12I_addDir (W : Nat) (hW : 1 ≤ W) (a b : BF) :
-    bfVal (addDir W true a b) ≤ bfVal a + bfVal b ∧ bfVal a + bfVal b ≤ bfVal (addDir W false a b) := by
-  sorry
+    bfVal (addDir W true a b) ≤ bfVal a + bfVal b ∧ bfVal a + bfVal b ≤ bfVal (addDir W false a b) :=
+  addDir_sound W a b
 
 theorem C12I_mulDir (W : Nat) (a b : BF) :
-    bfVal (mulDir W true a b) ≤ bfVal a * bfVal b ∧ bfVal a * bfVal b ≤ bfVal (mulDir W false a b) := by
-  sorry
+    bfVal (mulDir W true a b) ≤ bfVal a * bfVal b ∧ bfVal a * bfVal b ≤ bfVal (mulDir W false a b) :=
+  ⟨mulDir_down W a b, mulDir_up W a b⟩
 
 theorem C12I_divDir (W : Nat) (a b : BF) (hb : b.m ≠ 0) :
-    bfVal (divDir W true a b) ≤ bfVal a / bfVal b ∧ bfVal a / bfVal b ≤ bfVal (divDir W false a b) := by
-  sorry
+    bfVal (divDir W true a b) ≤ bfVal a / bfVal b ∧ bfVal a / bfVal b ≤ bfVal (divDir W false a b) :=
+  ⟨divDir_down W a b hb, divDir_up W a b hb⟩
 
 theorem C12I_add (W : Nat) (hW : 1 ≤ W) (a b : I) (r s : ℝ) (hr : Encl a r) (hs : Encl b s) :
-    Encl (I.add W a b) (r + s) := by
-  sorry
+    Encl (I.add W a b) (r + s) :=
+  add_sound W a b r s hr hs
 
 theorem C12I_mul (W : Nat) (a b : I) (r s : ℝ) (hr : Encl a r) (hs : Encl b s) :
-    Encl (I.mul W a b) (r * s) := by
-  sorry
+    Encl (I.mul W a b) (r * s) :=
+  mul_sound W a b r s hr hs
 
 theorem C12I_divPos (W : Nat) (a b : I) (r s : ℝ) (hr : Encl a r) (hs : Encl b s) (hpos : 0 < bfVal b.lo) :
-    Encl (I.divPos W a b) (r / s) := by
-  sorry
+    Encl (I.divPos W a b) (r / s) :=
+  divPos_sound W a b r s hr hs hpos
 
 /-- the Taylor polynomial with its remainder bound encloses exp on `|r| ≤ 1/2` -/
 theorem C12I_expTaylor (W : Nat) (hW : 1 ≤ W) (r : BF) (k : Nat) (hk : 1 ≤ k) (hr : |bfVal r| ≤ 1 / 2) :
-    Encl (expTaylor W r k) (Real.exp (bfVal r)) := by
-  sorry
+    Encl (expTaylor W r k) (Real.exp (bfVal r)) :=
+  expTaylor_sound W r k hk (by rw [bfVal_eq] at hr; linarith)
 
 /-- `expPoint` encloses the exponential -/
-theorem C12I_expPoint (W : Nat) (hW : 1 ≤ W) (x : BF) : Encl (expPoint W x) (Real.exp (bfVal x)) := by
-  sorry
+theorem C12I_expPoint (W : Nat) (hW : 1 ≤ W) (x : BF) : Encl (expPoint W x) (Real.exp (bfVal x)) :=
+  expPoint_sound W x
 
 /-- `lnPoint` encloses the natural logarithm of a positive argument -/
-theorem C12I_lnPoint (W : Nat) (hW : 1 ≤ W) (x : BF) (hx : 0 < x.m) : Encl (lnPoint W x) (Real.log (bfVal x)) := by
-  sorry
+theorem C12I_lnPoint (W : Nat) (hW : 1 ≤ W) (x : BF) (hx : 0 < x.m) : Encl (lnPoint W x) (Real.log (bfVal x)) :=
+  lnPoint_sound W hW x hx
+
+/-- by-products: the cached constants enclose `ln 2` and `ln 10` -/
+theorem C12I_ln2 (W : Nat) : Encl (ln2C W) (Real.log 2) := by rw [ln2C_eq]; exact ln2I_sound W
+theorem C12I_ln10 (W : Nat) : Encl (ln10C W) (Real.log 10) := by rw [ln10C_eq]; exact ln10I_sound W
 
 /-- the only verdict the oracle turns into a failure is sound: if `certainlyOff` holds, the value is
 more than `tol` away from every point of the enclosure -/
 theorem C12I_certainlyOff (W : Nat) (hW : 1 ≤ W) (v : BF) (enc : I) (tol : BF) (r : ℝ) (hr : Encl enc r)
-    (h : certainlyOff W v enc tol = true) : bfVal tol < |bfVal v - r| := by
-  sorry
+    (h : certainlyOff W v enc tol = true) : bfVal tol < |bfVal v - r| :=
+  certainlyOff_sound W v enc tol r hr h
+
+#print axioms C12I_fastDigits
+#print axioms C12I_rnd_down
+#print axioms C12I_rnd_up
+#print axioms C12I_cmp
+#print axioms C12I_addDir
+#print axioms C12I_mulDir
+#print axioms C12I_divDir
+#print axioms C12I_add
+#print axioms C12I_mul
+#print axioms C12I_divPos
+#print axioms C12I_expTaylor
+#print axioms C12I_expPoint
+#print axioms C12I_lnPoint
+#print axioms C12I_ln2
+#print axioms C12I_ln10
+#print axioms C12I_certainlyOff
 
 end Apd.Props
